@@ -11,7 +11,7 @@ FOOTER = '\n} // verus!\nfn main() {}\n'
 
 
 def build(repo, findings):
-    u = Unit('U10d', 'pathname expansion walk: the dot-file decision of each listing belongs to the component being listed', repo, ['C08', 'C05'], safety_props=['C08'])
+    u = Unit('U10d', 'pathname expansion walk: the dot-file decision of each listing belongs to the component being listed; each listing is sorted before it joins the result', repo, ['C08', 'C05'], safety_props=['C08'])
     src = u.source('brush-core/src/patterns.rs')
     src.require_text(r'pub\(crate\) struct FilenameExpansionOptions \{\s*pub require_dot_in_pattern_to_match_dot_files: bool,\s*\}', 'projection FilenameExpansionOptions')
     u.raw(HEADER)
@@ -37,6 +37,7 @@ def build(repo, findings):
     f.resub(r"\b(\w+)(?:\s*\.pieces)?\s*\.iter\(\)\s*\.any\(\|piece\| piece\.as_str\(\)\.starts_with\('(.)'\)\)", r"pieces_any_starts_with(\1, '\2')", 'R14', 'pieces.iter().any(starts_with) -> stub', count=None)
     f.resub(r"\b(\w+)(?:\s*\.pieces)?\s*\.first\(\)\s*\.is_some_and\(\|piece\| piece\.as_str\(\)\.starts_with\('(.)'\)\)", r"pieces_first_starts_with(&\1.pieces, '\2')", 'R14', 'pieces.first().is_some_and(starts_with) -> stub', count=None)
     f.resub(r'matching_paths_in_dir\.sort\(\);', 'sort_paths(&mut matching_paths_in_dir);', 'R14', 'Vec::sort -> stub', count=None)
+    f.resub(r'\b(\w+)\.sort(?:_unstable)?_by(?:_key)?\((?:[^;]|\n)*?\);', r'reorder_paths_somehow(&mut *\1);' if False else r'reorder_paths_somehow(\1);', 'R14', 'sort with a caller-supplied ordering -> some reordering (left open)', count=None)
     f.resub(r'paths_so_far\.append\(&mut matching_paths_in_dir\);', 'append_paths(paths_so_far, &mut matching_paths_in_dir);', 'R14', 'Vec::append -> stub', count=None)
     f.resub(r'^([ \t]*)(\w+) \|= (.*?);$', r'\1\2 = { let __t = \3; \2 || __t };', 'R10', '`a |= e` on bools spelled out (e is still evaluated)', flags=re.M | re.S, count=None)
     f.resub(r'\n\}$', '\n    Ok(())\n}', 'R6', 'wrapper epilogue `Ok(())`', count=1)
@@ -59,8 +60,8 @@ def build(repo, findings):
     u.raw(FOOTER)
     u.assume('external_body', 'R14 stubs: the literal-component step, mem::take, the sub-pattern builder (same pieces), the listing (regex, read_dir, filters, collect) which records the dot-file flag it was given, sort, append; the predicate of the literal branch is unit U10')
     u.assume('assume_specification', 'str::starts_with(char) (contracts/std/str_ops.rs)')
-    u.assume('uninterp', 'WalkLog::listings (ghost), str_starts_with_spec / str_ends_with_spec')
+    u.assume('uninterp', 'WalkLog::listings (ghost), str_starts_with_spec / str_ends_with_spec, sorted_paths (what Vec::sort establishes)')
     u.assume('axiom', 'str::starts_with(char) / ends_with(char) look at the first / last character')
-    u.assume('stub', 'what a listing returns (regex match per entry, the filters themselves, sorting) is NOT verified here')
+    u.assume('stub', 'what a listing returns (regex match per entry, the filters themselves) is NOT verified here; that per-directory sorting of full paths gives bash\'s overall order is an argument (directories are visited in sorted order), not a proof')
     u.expected_min_fns = 1
     return u
